@@ -17,6 +17,7 @@ import (
 	"os/exec"
 	"sort"
 	"strings"
+	"time"
 
 	"github.com/Oneledger/protocol/action"
 	"github.com/Oneledger/protocol/action/staking"
@@ -66,6 +67,8 @@ type c10Case struct {
 	Txs       []string  `json:"txs,omitempty"` // descriptions with result codes
 	OwnStakeDiff []string `json:"own_stake_diff,omitempty"`
 	Quiet     int64     `json:"quiet"`
+	Released  []int     `json:"released,omitempty"`  // validators whose RELEASE succeeded in this block
+	TwinDiff  string    `json:"twin_diff,omitempty"` // a replica restarted after the release returned other validator updates
 	Crashed   bool      `json:"crashed,omitempty"` // the node exited (logger.Fatal) inside EndBlock of this block
 	HSeed     int64     `json:"hseed"`
 }
@@ -123,6 +126,7 @@ type c10Scenario struct {
 	Bvd    int64
 	Blocks int
 	Ties   bool
+	ByVerdict bool // kind "release": freeze by a guilty verdict (else by missed votes)
 }
 
 func (sc *c10Scenario) all() []ValSpec {
@@ -135,9 +139,14 @@ func (sc *c10Scenario) genesis() *GenesisSpec {
 		g.Funded = append(g.Funded, v.Stake.Addr)
 	}
 	top, min, bvd := sc.Top, sc.Min, sc.Bvd
+	minVotes := int64(2)
+	_ = minVotes
 	g.Customize = func(st *consensus.AppState) {
 		st.Governance.StakingOptions = delegation.Options{MinSelfDelegationAmount: *balance.NewAmount(min), MinDelegationAmount: *balance.NewAmount(1), TopValidatorCount: top, MaturityTime: 3}
 		st.Governance.EvidenceOptions.BlockVotesDiff = bvd
+		// with the default of 1 the missed-votes freeze is unreachable (an address with 0 votes in the
+		// window is dropped from the cumulative map and never scanned)
+		st.Governance.EvidenceOptions.MinVotesRequired = minVotes
 	}
 	return g
 }
@@ -157,6 +166,12 @@ func c10Scen(r *rand.Rand, kind string) *c10Scenario {
 		nv, ne, sc.Top, sc.Blocks, sc.Ties = 2, 1, 4, 14, false
 	case "frozen":
 		nv, ne, sc.Top, sc.Blocks, sc.Ties, sc.Bvd = 4, 0, 4, 10, false, 6
+	case "restake":
+		nv, ne, sc.Top, sc.Blocks, sc.Ties = 3, 0, 4, 9, false
+	case "release":
+		// freeze (missed votes or guilty verdict) -> wait -> RELEASE -> at least 8 more blocks
+		nv, ne, sc.Top, sc.Blocks, sc.Ties, sc.Bvd = 4, r.Intn(2), int64(4+r.Intn(2)), 26, false, 4
+		sc.ByVerdict = r.Intn(2) == 0
 	case "fork":
 		sc.Fork = int64(3 + r.Intn(6))
 	}
@@ -261,6 +276,9 @@ type c10Gen struct {
 	reqs  []string
 	lazy  int // index into sc.Vals of a validator that stops signing, -1 none
 	lazyUntil int64
+	frozenAt  int64 // kind "release": first height at which the target was seen frozen
+	released  bool
+	topped    bool
 }
 
 func (g *c10Gen) memo() string { g.nonce++; return fmt.Sprintf("c10m%d", g.nonce) }
@@ -316,6 +334,70 @@ func (g *c10Gen) block(h int64, rep *Replica) (BlockIn, []string) {
 			add(txUnstake(sc.Extra[0], oltAmt("7000"), g.memo()), "unstake extra0 7000")
 		}
 		return in, descr
+	case "restake":
+		// corpus case of the fixed finding C10.negative_power_record: unstake everything, stake again in
+		// the block whose EndBlock used to delete the record, later stake and unstake more than the new record
+		v := sc.Vals[2]
+		switch h {
+		case 1:
+			a := fmt.Sprintf("%d", v.Power)
+			add(txUnstake(v, oltAmt(a), g.memo()), "unstake all val2 "+a)
+		case 2:
+			add(txStake(v, oltAmt("435"), g.memo()), "stake val2 435")
+		case 4:
+			add(txStake(v, oltAmt("488"), g.memo()), "stake val2 488")
+			add(txUnstake(v, oltAmt("495"), g.memo()), "unstake val2 495")
+		}
+		for i := 0; i < 2; i++ { // fee traffic so that the pool is above the minimum
+			add(txStake(sc.Vals[0], oltAmt("1"), g.memo()), "stake val0 1")
+		}
+		return in, descr
+	case "release":
+		target := sc.Vals[3]
+		isFrozen := false
+		for _, k := range sortedKeys(d) {
+			if strings.HasPrefix(k, "es__ssvk_") {
+				if lvh, err := (&evidence.LastValidatorHistory{}).FromBytes([]byte(d[k])); err == nil && lvh.IsFrozen() && bytes.Equal(lvh.Address, target.Val.Addr) {
+					isFrozen = true
+				}
+			}
+		}
+		if isFrozen && g.frozenAt == 0 {
+			g.frozenAt = h
+			if sc.ByVerdict {
+				// a byzantine-fault freeze can be released only ValidatorReleaseTime (1 day) later:
+				// from here on the block times are two days later
+				rep.T0 = rep.T0.Add(48 * time.Hour)
+			}
+		}
+		if sc.ByVerdict {
+			if h == 3 {
+				add(txAllegation(sc.Vals[0], "c10rel", target.Val.Addr, h, g.memo()), "allegation val0 against val3")
+				for i := 0; i < 3; i++ {
+					add(txAllegationVote(sc.Vals[i], "c10rel", 1, g.memo()), fmt.Sprintf("vote yes val%d", i))
+				}
+			}
+		} else if g.frozenAt == 0 && h >= 3 && h%4 != 0 {
+			// the target signs one block in four only (1 vote in the window < MinVotesRequired 2) until it is frozen
+			for i, tv := range rep.valSet(h - 1).Validators {
+				if bytes.Equal(tv.Address, target.Val.Addr) {
+					in.Absent[i] = true
+				}
+			}
+		}
+		if g.frozenAt > 0 && !g.released && h >= g.frozenAt+2 {
+			add(txRelease(target, g.memo()), "release val3")
+		}
+		if g.released && !g.topped {
+			g.topped = true // the penalty of a guilty verdict may have taken the target below the minimum
+			add(txStake(target, oltAmt("1000"), g.memo()), "stake val3 1000 after release")
+		}
+		if g.frozenAt == 0 && g.r.Intn(3) == 0 { // unrelated staking traffic before the freeze
+			v := cands[g.r.Intn(len(cands))]
+			a := g.amount()
+			add(txStake(v, oltAmt(a), g.memo()), "stake "+a)
+		}
+		return in, descr
 	case "frozen":
 		if h == 3 {
 			add(txAllegation(sc.Vals[0], "c10req", sc.Vals[3].Val.Addr, h, g.memo()), "allegation val0 against val3")
@@ -367,6 +449,13 @@ func (g *c10Gen) block(h int64, rep *Replica) (BlockIn, []string) {
 				add(txAllegationVote(cands[j], id, int8(1+r.Intn(2)), g.memo()), fmt.Sprintf("vote c%d %s", j, id))
 			}
 		case k < 13:
+			for j, cv := range cands { // prefer a validator that is frozen right now
+				if strings.Contains(d["es__ssvk_"+cv.Val.Addr.String()], "\"frozenAt\"") || d["es__ssvk_"+cv.Val.Addr.String()] != "" {
+					if lvh, err := (&evidence.LastValidatorHistory{}).FromBytes([]byte(d["es__ssvk_"+cv.Val.Addr.String()])); err == nil && lvh.IsFrozen() {
+						ci, v = j, cv
+					}
+				}
+			}
 			add(txRelease(v, g.memo()), fmt.Sprintf("release c%d", ci))
 		default:
 			if r.Intn(3) == 0 {
@@ -382,6 +471,9 @@ func (g *c10Gen) block(h int64, rep *Replica) (BlockIn, []string) {
 				add(txStake(v, oltAmt(fmt.Sprintf("%d", os-cur)), g.memo()), fmt.Sprintf("stake c%d up to %d", ci, os))
 			}
 		}
+	}
+	if r.Intn(12) == 0 {
+		rep.T0 = rep.T0.Add(48 * time.Hour) // two days pass: byzantine-fault freezes become releasable
 	}
 	// missed votes: one validator stops signing for a while
 	if g.lazy < 0 && r.Intn(8) == 0 {
@@ -422,6 +514,14 @@ func c10Run(r *rand.Rand, kind string, hist int) []c10Case {
 	defer rep.Close()
 	rep.InitChain()
 	gen := &c10Gen{r: r, sc: sc, lazy: -1}
+	// kind "release": a second replica runs the same blocks and is restarted (fresh process memory)
+	// after the block of the release; its validator updates must equal the long-running node's
+	var twin *Replica
+	if kind == "release" {
+		twin = NewReplica(sc.genesis(), ReplicaOpts{NodeVal: sc.Vals[0].Val})
+		defer twin.Close()
+		twin.InitChain()
+	}
 	out := []c10Case{}
 	lastSig, quiet := "", int64(0)
 	for b := 0; b < sc.Blocks; b++ {
@@ -455,6 +555,19 @@ func c10Run(r *rand.Rand, kind string, hist int) []c10Case {
 		c.Mal = c10Frozen(bb, ids)
 		for i, tx := range in.Txs {
 			res := rep.DeliverTx(tx)
+			if res.Code == 0 && strings.HasPrefix(descr[i], "release ") {
+				var who ValSpec
+				cs := append(append([]ValSpec{}, sc.Vals...), sc.Extra...)
+				if strings.HasPrefix(descr[i], "release val3") {
+					who = sc.Vals[3]
+					gen.released = true
+				} else {
+					var ci int
+					fmt.Sscanf(descr[i], "release c%d", &ci)
+					who = cs[ci%len(cs)]
+				}
+				c.Released = append(c.Released, ids.addr(who.Val.Addr))
+			}
 			lg := res.Log
 			if len(lg) > 90 {
 				lg = lg[:90]
@@ -500,6 +613,29 @@ func c10Run(r *rand.Rand, kind string, hist int) []c10Case {
 		}
 		c.NextAfter = c10Set(cp, ids)
 		rep.Commit()
+		if twin != nil {
+			twin.T0 = rep.T0
+			twin.BeginBlock(&in)
+			for _, tx := range in.Txs {
+				twin.DeliverTx(tx)
+			}
+			teb := twin.EndBlock()
+			twin.Commit()
+			a, b := []string{}, []string{}
+			for _, u := range eb.ValidatorUpdates {
+				a = append(a, fmt.Sprintf("%d:%d", ids.pub(u.PubKey.Data), u.Power))
+			}
+			for _, u := range teb.ValidatorUpdates {
+				b = append(b, fmt.Sprintf("%d:%d", ids.pub(u.PubKey.Data), u.Power))
+			}
+			if strings.Join(a, ",") != strings.Join(b, ",") {
+				c.TwinDiff = "long-running [" + strings.Join(a, ",") + "] restarted [" + strings.Join(b, ",") + "]"
+			}
+			if len(c.Released) > 0 {
+				twin.Crash() // fresh process memory over the data committed so far
+			}
+			rep.Use()
+		}
 		sig := jsonString([]interface{}{c.Cands, c.OMin, c.OTop, c.Mal})
 		if sig == lastSig {
 			quiet++
@@ -645,7 +781,7 @@ func c10Main(args []string) int {
 		must(ioutil.WriteFile(*child, bz, 0644))
 		return 0
 	}
-	kinds := []string{"e10", "unstake_all", "ghost", "frozen", "fork", "fork", "mixed", "mixed", "mixed", "mixed", "mixed", "mixed"}
+	kinds := []string{"e10", "unstake_all", "ghost", "frozen", "release", "restake", "release", "mixed", "mixed", "mixed", "mixed", "mixed"}
 	cases := []c10Case{}
 	for i := 0; i < *n; i++ {
 		kind := kinds[i%len(kinds)]
